@@ -276,8 +276,8 @@ def strategies(tier):
                 segs.append(['CLM', 'A%d' % len(segs), '100'])
                 lxn = 0
             elif k == 'LX':
-                if not any(x[0] == 'CLM' for x in segs):
-                    continue     # in an 837 a service line always belongs to a claim of the same set
+                # (a service line in front of the first claim of its set is numbered from 1 like any other: the count of the set
+                # before does not carry over)
                 lxn += 1
                 v = str(lxn)
                 if draw(st.integers(0, 7)) == 0:
